@@ -23,6 +23,7 @@ import (
 	"time"
 
 	"github.com/drshriveer/gtools/gencommon"
+	ggen "github.com/drshriveer/gtools/gogenproto/gen"
 
 	"gtverif/internal/gal"
 )
@@ -987,6 +988,99 @@ func nearMissCorpus() []Spec {
 	return out
 }
 
+// ---------------------------------------------------------------- the byte scanner alone
+
+// scanFrags: pieces of proto source that exercise every state and transition of the scanner
+var scanFrags = []string{"option", "go_package", "=", "\"x\"", "'y'", " ", "\n", "\t", "//", "/*", "*/", "/",
+	"\\", "\"", "'", "x", ";", "*", "\r", "opt", "ion", "_"}
+
+// ScanCase is the JSON side of one run of protoFileHasGoPackage.
+type ScanCase struct {
+	Kind    string `json:"kind"`
+	Content string `json:"scan_content"`
+	Got     bool   `json:"got"`
+	Err     string `json:"err,omitempty"`
+}
+
+func scanContents(r *rand.Rand, exhaustLen, nRandom int) []string {
+	out := []string{""}
+	// every sequence of fragments up to exhaustLen
+	var rec func(prefix string, n int)
+	rec = func(prefix string, n int) {
+		if n == 0 {
+			return
+		}
+		for _, f := range scanFrags {
+			out = append(out, prefix+f)
+			rec(prefix+f, n-1)
+		}
+	}
+	rec("", exhaustLen)
+	// a declaration with every fragment / pair of fragments in each of its five gaps
+	toks := []string{"option", "go_package", "=", "\"example.com/x\"", ";"}
+	decl := func(gaps [6]string) string {
+		s := gaps[0]
+		for i, t := range toks {
+			s += t + gaps[i+1]
+		}
+		return s
+	}
+	base := [6]string{"", " ", " ", " ", "", "\n"}
+	for g := 0; g < 6; g++ {
+		for _, f1 := range scanFrags {
+			gaps := base
+			gaps[g] = f1
+			out = append(out, decl(gaps))
+			for _, f2 := range scanFrags {
+				gaps[g] = f1 + f2
+				out = append(out, decl(gaps))
+			}
+		}
+	}
+	// random longer sequences, biased towards the tokens of the declaration
+	for i := 0; i < nRandom; i++ {
+		n := 3 + r.IntN(10)
+		s := ""
+		for k := 0; k < n; k++ {
+			if r.IntN(3) == 0 {
+				s += scanFrags[r.IntN(5)]
+			} else {
+				s += scanFrags[r.IntN(len(scanFrags))]
+			}
+		}
+		out = append(out, s)
+	}
+	// whole files of the generator, every content kind
+	kinds := append(append([]string{"nogp", "nogp_defs", "plain", "gofile"}, gpPositions...), nearMissKinds...)
+	for _, k := range kinds {
+		out = append(out, content(k))
+	}
+	return out
+}
+
+func scanMain(seed uint64, outp, work string, exhaustLen, nRandom int) {
+	r := gal.NewRand(seed)
+	dir := filepath.Join(work, "scan")
+	if err := os.MkdirAll(dir, 0o755); err != nil {
+		panic(err)
+	}
+	defer os.RemoveAll(dir)
+	o := gal.NewOut(outp)
+	p := filepath.Join(dir, "f.proto")
+	for _, c := range scanContents(r, exhaustLen, nRandom) {
+		if err := os.WriteFile(p, []byte(c), 0o644); err != nil {
+			panic(err)
+		}
+		got, err := ggen.ProtoFileHasGoPackageForVerif(p)
+		sc := ScanCase{Kind: "scan", Content: c, Got: got}
+		if err != nil {
+			sc.Err = err.Error()
+		}
+		o.Case("{| sc_content := "+gContent(c)+"; sc_got := "+gal.Bool(got)+"; sc_err := "+gal.Bool(err != nil)+" |}", sc)
+	}
+	o.Close()
+}
+
 // ---------------------------------------------------------------- main
 
 func pkgofMain(dir string, dirs []string) {
@@ -1019,11 +1113,21 @@ func main() {
 	par := flag.Int("par", 16, "parallel trees")
 	osample := flag.Int("oraclesample", 1, "call the real PackageNameFromPath for every K-th tree (always in corpus/spec mode)")
 	noReal := flag.Bool("norealoracle", false, "never call the real PackageNameFromPath helper (minimisation rounds)")
+	scanFile := flag.String("scanfile", "", "helper mode: print protoFileHasGoPackage of this file")
 	pkgof := flag.Bool("pkgof", false, "helper mode")
 	dir := flag.String("dir", "", "helper mode: working directory")
 	flag.Parse()
 	if *pkgof {
 		pkgofMain(*dir, flag.Args())
+		return
+	}
+	if *scanFile != "" {
+		got, err := ggen.ProtoFileHasGoPackageForVerif(*scanFile)
+		fmt.Println(got, err)
+		return
+	}
+	if *mode == "scan" {
+		scanMain(*seed, *outp, *work, *flagsets, *n)
 		return
 	}
 	w, err := filepath.EvalSymlinks(*work)
